@@ -16,6 +16,9 @@ enum Act {
   CheckSlot(usize),
   FreeGiven(u32, u32, usize),
   TouchGiven(u32, u32),
+  CheckLast,
+  DropArena,
+  CloneDrop,
   Discard,
 }
 
@@ -149,7 +152,10 @@ fn release(tid: usize, lo: u32) {
   }
 }
 
-fn run_prog(arena: &Arena, tid: usize, prog: &[Act], pat: u8, dofs: u32, cap: u32, given: &[(u32, u32)]) {
+fn run_prog(owned: Arena, tid: usize, prog: &[Act], pat: u8, dofs: u32, cap: u32, given: &[(u32, u32)]) {
+  let mut holder = Some(owned);
+  // SAFETY of the borrow below: `arena` is only used while `holder` is Some (the DropArena action is the last use)
+  let arena: &Arena = unsafe { &*(holder.as_ref().unwrap() as *const Arena) };
   TID.with(|t| t.set(tid));
   gate(None); // the `start` step of the model
   let mut slots: Vec<Option<(u32, u32, u32, u32)>> = vec![None; 8]; // (offset, capacity, buffer_offset, buffer_capacity)
@@ -214,11 +220,31 @@ fn run_prog(arena: &Arena, tid: usize, prog: &[Act], pat: u8, dofs: u32, cap: u3
         gate(None); // client::fill_range
         unsafe { std::ptr::write_bytes(base.add(*o as usize), pat, *s as usize) };
       }
+      Act::CheckLast => {
+        if let Some(m) = slots[..next].iter().rev().flatten().next() {
+          gate(None);
+          for i in 0..m.1 {
+            let b = unsafe { *base.add((m.0 + i) as usize) };
+            if b != pat {
+              VIOLATIONS.lock().unwrap().push(format!("corrupt: thread {} finds byte {} of its live buffer = {:#x}, wrote {:#x}", tid, m.0 + i, b, pat));
+              break;
+            }
+          }
+        }
+      }
+      Act::DropArena => {
+        drop(holder.take());
+        break 'prog;
+      }
+      Act::CloneDrop => {
+        drop(arena.clone());
+      }
       Act::Discard => {
         let _ = arena.discard_freelist();
       }
     }
   }
+  std::mem::forget(holder);
   finish();
 }
 
@@ -249,6 +275,9 @@ fn parse(path: &str) -> Input {
             "check_slot" => Act::CheckSlot(p[1].parse().unwrap()),
             "free_given" => Act::FreeGiven(p[1].parse().unwrap(), p[2].parse().unwrap(), p[3].parse().unwrap()),
             "touch_given" => Act::TouchGiven(p[1].parse().unwrap(), p[2].parse().unwrap()),
+            "check_last" => Act::CheckLast,
+            "drop_arena" => Act::DropArena,
+            "clone_drop" => Act::CloneDrop,
             "discard" => Act::Discard,
             x => panic!("unknown action {x}"),
           });
@@ -404,7 +433,10 @@ fn main() {
     if Some(tid) == survivor {
       continue;
     }
-    let a = arena.clone();
+    let holds = inp.progs[tid].iter().any(|x| matches!(x, Act::DropArena));
+    let any_holder = inp.progs.iter().any(|p| p.iter().any(|x| matches!(x, Act::DropArena)));
+    // in a teardown scenario a thread that never drops works through a non-owning alias (forgotten at its end)
+    let a = if any_holder && !holds { unsafe { std::ptr::read(&arena as *const Arena) } } else { arena.clone() };
     let prog = inp.progs[tid].clone();
     let pat = inp.patterns[tid];
     let cap = inp.cap;
@@ -412,7 +444,15 @@ fn main() {
     for (o, s) in &given {
       own(Held { tid, lo: *o, hi: *o + *s, plo: *o, phi: *o + *s }, dofs, cap);
     }
-    handles.push((tid, std::thread::spawn(move || run_prog(&a, tid, &prog, pat, dofs, cap, &given))));
+    handles.push((tid, std::thread::spawn(move || run_prog(a, tid, &prog, pat, dofs, cap, &given))));
+  }
+  let teardown = inp.progs.iter().any(|p| p.iter().any(|a| matches!(a, Act::DropArena)));
+  let base_ptr = arena.raw_ptr();
+  let mut main_arena = Some(arena);
+  if teardown {
+    // refs must equal the number of threads that drop their arena value (the model's initial count): those threads got
+    // real clones above, the others a non-owning bitwise alias (see below), and our own value goes now
+    drop(main_arena.take());
   }
   let t0 = Instant::now();
   let wait_all = |which: &dyn Fn(usize) -> bool| loop {
@@ -460,7 +500,7 @@ fn main() {
         let prog = inp.progs[sv].clone();
         let pat = inp.patterns[sv];
         let cap = inp.cap;
-        let h = std::thread::spawn(move || run_prog(&re, sv, &prog, pat, dofs, cap, &[]));
+        let h = std::thread::spawn(move || run_prog(re, sv, &prog, pat, dofs, cap, &[]));
         wait_all(&|t| t == sv);
         let _ = h;
       }
@@ -482,8 +522,8 @@ fn main() {
       }
     }
   }
-  if !inp.crash {
-    let p = arena.raw_ptr();
+  if !inp.crash && !teardown {
+    let p = base_ptr;
     let words: Vec<String> = (0..inp.cap / 8).map(|i| format!("{:x}", unsafe { (p.add(8 * i as usize) as *const u64).read() })).collect();
     println!("FINAL {}", words.join(" "));
   }
